@@ -1406,8 +1406,10 @@ class Compiler:
 
         for name in node.names:
             if not node.local:
+                # With several names the value has been unpacked; each
+                # name is published with the item it was bound to.
                 assignment += template(
-                    "rcontext[KEY] = __value", KEY=ast.Constant(
+                    "rcontext[KEY] = econtext[KEY]", KEY=ast.Constant(
                         str(name)))
 
         return assignment
